@@ -537,6 +537,37 @@ def run_case(ctx, case):
                                "clipped": np.asarray(cg.data).ravel()[:4].tolist(),
                                "parent": stored[r0:r1 + 1, c0:c1 + 1].ravel()[:4]
                                .tolist()})
+            # a clip of the clip (a window refined step by step): still the parent's values
+            # at coinciding centres - whatever position the first window had
+            if okshape and cg.nrows >= 2 and cg.ncols >= 2:
+                a_ = int(rng.integers(0, cg.nrows - 1)) + 1      # rows dropped at the top
+                b_ = int(rng.integers(0, cg.ncols - 1)) + 1      # columns dropped left
+                czs = float(cg.cellsize)
+                try:
+                    with warnings.catch_warnings():
+                        warnings.simplefilter("ignore")
+                        c2g = cg.clip(float(cg.xllcorner) + (b_ + 0.3) * czs,
+                                      float(cg.yllcorner) + 0.3 * czs,
+                                      float(cg.xllcorner) + (cg.ncols - 0.3) * czs,
+                                      float(cg.yllcorner) + (cg.nrows - a_ - 0.3) * czs)
+                    ctx.tag("clip:of-a-clip")
+                    ctx.api("Grid.clip")
+                    exp2 = stored[r0 + a_:r1 + 1, c0 + b_:c1 + 1]
+                    ok2 = tuple(c2g.shape) == exp2.shape and \
+                        values_equal(np.asarray(c2g.data), exp2)
+                    if ok2:
+                        cc2 = c2g.cell2coord(np.arange(c2g.nrows * c2g.ncols))
+                        e2 = np.array([(r * ncols + k) for r in range(r0 + a_, r1 + 1)
+                                       for k in range(c0 + b_, c1 + 1)])
+                        ok2 = bool(np.array_equal(gr.coord2cell(cc2), e2))
+                    ctx.check("clip.nested", bool(ok2), f"clip|clip-of-a-clip|values|{tagk}",
+                              case, lambda: {"first_rows": [int(r0), int(r1)],
+                                             "first_cols": [int(c0), int(c1)],
+                                             "dropped": [a_, b_], "shape": list(c2g.shape),
+                                             "expected_shape": list(exp2.shape)})
+                except Exception as e2_:
+                    ctx.check("clip.nested", False, f"clip|clip-of-a-clip|raises", case,
+                              {"exc": repr(e2_)[:200]})
             ctx.check("clip.nodata", same_scalar(cg.nodata, gr.nodata),
                       "clip|nodata", case, None)
             # a clipped grid (it remembers its parent) survives the dictionary export
